@@ -8,6 +8,8 @@
 (*   quote   "N2" short number   "N4" number of >= 4 digits (also zips)    *)
 (*   "H" store number (#123)   "ST" two-letter word (state code)           *)
 (*   "P" processor prefix (first position only: SQ *, TST*, APLPAY ...)    *)
+(*   "S" a stand-alone separator token ("&", "-", "/"): a word like any    *)
+(*       other for the purpose of the pattern                              *)
 (* suggest_pattern keeps a contiguous run of words; the suggestion is then *)
 (*   Impl = "intended": a case-insensitive regular expression, words       *)
 (*                      joined by optional blanks, metacharacters escaped  *)
@@ -19,7 +21,7 @@ EXTENDS Naturals, Sequences, FiniteSets, TLC
 
 CONSTANTS Impl, MaxWords
 
-Shapes == {"W", "M", "Q", "N2", "N4", "H", "ST", "P"}
+Shapes == {"W", "M", "Q", "N2", "N4", "H", "ST", "P", "S"}
 Descs == UNION {[1..n -> Shapes] : n \in 1..MaxWords}
 WellFormed(d) == \A i \in 2..Len(d) : d[i] # "P"       \* prefixes only in front
 
